@@ -6,6 +6,11 @@ BASE = "cd /repo && go test -mod=mod -json -vet=off -count=1 -timeout 25m ./..."
 
 CLAIMED = {
  # id: (category, text, design_ref, level_note, technique)
+ "C10": ("other",
+  "Narrow structural claim: one clause of the property is decided — 'reported components add up to the reported total (runoff = quick/surface flow + baseflow)'. For Simhyd, Surm and Sacramento the values written to the total and component outputs in a timestep are expanded to polynomials over the SSA values of that timestep and the identity total = sum of components is checked by normal form (nothing is executed). Finiteness, non-negativity, store bounds and the cumulative water balance over all parameter vectors and series are value properties and are NOT decided.",
+  "DESIGN.md section 9.5",
+  "Opaque subexpressions (Min/Max calls, phis of the stores) are symbols; the identity must hold syntactically after expansion.",
+  "symbolic polynomial normal forms over go/ssa values"),
  "C18": ("other",
   "Narrow structural claim on every path of FindRoot and Piecewise: with rho(a,b) <=> b = fn(a), extended over pairs of SSA phis as a greatest fixpoint, every `return x, delta` and every bracket pair (min/max and trial pairs) carried around the iteration satisfies rho, so the returned value is the function's value at the returned point; Piecewise returns a number only on paths where the bracket search succeeded, and the bracket search returns a usable pair only inside its scan loop under xs[j] >= x after the comparisons with the first and last knot failed (so outside and NaN arguments reach the error return). Bracketing, convergence, never-evaluated-outside and interpolation values are NOT decided.",
   "DESIGN.md section 2, C18",
@@ -89,7 +94,6 @@ CLAIMED = {
 }
 
 NOT_APPLICABLE = {
- "C10": "every clause is an inequality or identity over floating-point stores for all parameter vectors and series; no clause has a structural form a sound static rule can decide (DESIGN.md section 5)",
  "C11": "conservation, weights summing to one and the delay identity are arithmetic facts about runtime values; the structural part of Lag's carried buffer is covered under C06 (DESIGN.md section 5)",
  "C15": "equivalence with an external published formulation is a value property over the whole parameter box; no structural necessary condition that would not also fire on an equal rewrite (DESIGN.md section 5)",
  "C20": "monotonicity and bracketing of transcendental formulae are value properties; the one relational clause could only be matched as a frozen expression shape (DESIGN.md section 5)",
